@@ -49,6 +49,12 @@ theorem C07_conj_grad_block (f : CVec ℝ (n + k) → ℝ) (x : CVec ℝ (n + k)
     unfold scicoGrad at this ⊢
     rwa [conjVec_vappend, vright_vappend] at this
 
+/-- the gradient in the sense of C07 is unique — so any array satisfying the property at a point of
+    the smoothness domain *is* the model's `grad` (what the correspondence compares the code with) -/
+theorem C07_grad_unique (f : Fn ℝ n) (x g : CVec ℝ n) (h : f.Smooth x) (hg : IsGradAt f.eval x g) :
+    g = f.grad x :=
+  isGradAt_unique f.eval x g (f.grad x) hg (f.isGradAt x h)
+
 /-- the conjugate is needed: JAX's own gradient of `|x|²` at `x = i` is *not* the gradient -/
 theorem C07_jax_grad_is_not_grad :
     ¬ IsGradAt (Fn.sqL2 : Fn ℝ 1).eval (fun _ => ⟨0, 1⟩) ((Fn.sqL2 : Fn ℝ 1).jaxGrad (fun _ => ⟨0, 1⟩)) := by
